@@ -514,6 +514,7 @@ type Contract struct {
 	Progress  map[int][]string
 	NoCall    bool // closure arguments are stored, not invoked, by this function
 	PureParams []string // func-typed parameters assumed to be pure functions of their arguments
+	GuardedParams map[string]string // map-typed parameter → "Type.mu": its contents may only be accessed with that mutex held
 }
 
 type SpecFunc struct {
@@ -574,7 +575,7 @@ var clauseKeywords = map[string]bool{
 	"func": true, "requires": true, "ensures": true, "loop": true, "modifies": true, "trusted": true,
 	"pure": true, "inline": true, "noinline": true, "strings": true, "bytes": true, "panics": true, "bind": true, "sink": true,
 	"axiom": true, "log": true, "atomic": true, "guarded_by": true, "immutable": true, "must-close": true,
-	"opaque": true, "unroll": true, "yield-requires": true, "invariant": true, "seq-items": true, "private": true, "pure-param": true, "iface-ensures": true, "iface-pure": true, "lemma": true, "holds": true, "fn-sink": true, "nocall": true, "fn-type-pure": true, "producer": true, "closure": true, "package": true, "assume-return": true,
+	"opaque": true, "unroll": true, "yield-requires": true, "invariant": true, "seq-items": true, "private": true, "pure-param": true, "public-invariant": true, "iface-ensures": true, "iface-pure": true, "lemma": true, "holds": true, "guarded-param": true, "fn-sink": true, "nocall": true, "fn-type-pure": true, "producer": true, "closure": true, "package": true, "assume-return": true,
 }
 
 // LoadContractFile parses one contracts_verif.go file (or any file with //@ lines).
@@ -660,6 +661,11 @@ func (cs *ContractSet) LoadContractFile(path, pkgPath string) error {
 			cs.PkgMode[pkgPath] = pm
 		case "func":
 			key := strings.TrimSpace(rest)
+			if prev, ok := cs.Funcs[pkgPath+"."+key]; ok {
+				// a second block for the same function adds to the first
+				cur = prev
+				break
+			}
 			cur = &Contract{Key: key, Pkg: pkgPath, Invs: map[int][]*Clause{}, CloInv: map[int][]*Clause{}, Unroll: map[int]int{}, Decreases: map[int][]*Clause{}, Progress: map[int][]string{}}
 			cs.Funcs[pkgPath+"."+key] = cur
 		case "requires", "ensures", "panics", "assume-return":
@@ -847,14 +853,17 @@ func (cs *ContractSet) LoadContractFile(path, pkgPath string) error {
 			sr.Ens = append(sr.Ens, c)
 			cs.SeqItems = append(cs.SeqItems, sr)
 			cs.Scan = append(cs.Scan, fmt.Sprintf("%s:%d: assumed interface contract: %s", path, it.line, t))
-		case "invariant":
+		case "invariant", "public-invariant":
 			// invariant (*T) E   — object invariant over `self`
+			// public-invariant (*T) E — the same, but not required of (nor
+			// assumed by) helper methods that run under the caller's lock
+			// (`holds`): it may be broken between their calls
 			close := strings.IndexByte(rest, ')')
 			if !strings.HasPrefix(rest, "(") || close < 0 {
 				return fmt.Errorf("%s:%d: bad invariant", path, it.line)
 			}
 			tn := strings.TrimPrefix(rest[1:close], "*")
-			c, err := mkClause("invariant", strings.TrimSpace(rest[close+1:]))
+			c, err := mkClause(word, strings.TrimSpace(rest[close+1:]))
 			if err != nil {
 				return err
 			}
@@ -909,6 +918,14 @@ func (cs *ContractSet) LoadContractFile(path, pkgPath string) error {
 		case "holds":
 			if cur != nil {
 				cur.Holds = append(cur.Holds, strings.TrimSpace(rest))
+			}
+		case "guarded-param":
+			// guarded-param m Type.mu
+			if fs := strings.Fields(rest); cur != nil && len(fs) == 2 {
+				if cur.GuardedParams == nil {
+					cur.GuardedParams = map[string]string{}
+				}
+				cur.GuardedParams[fs[0]] = fs[1]
 			}
 		case "fn-sink":
 			// fn-sink (*T).field(params) requires E : precondition of calls through a func-typed field
